@@ -106,7 +106,7 @@ Definition in_inventory (s : site) : bool :=
    of src/nunavut (bundled jinja2/markupsafe excluded); regenerated as Gen_Sites.g_stores.  st_phase = SRender when the function
    is reachable -- name-based, over-approximate call graph -- from generate_all, a post-processor's __call__, or any template
    filter / test / uses-query; SSetup otherwise (namespace tree, language context and environment construction). *)
-Inductive sroot := RSelf | RCls | RGlobal | RClosure.
+Inductive sroot := RSelf | RCls | RGlobal | RClosure | RParam.   (* RParam: an object the CALLER owns, mutated in place (any function, __init__ included) *)
 Inductive sphase := SRender | SSetup.
 Record store := { st_file : str; st_fn : str; st_target : str; st_root : sroot; st_phase : sphase }.
 
@@ -117,6 +117,7 @@ Inductive sclass :=
                       (update_nunavut_globals): part of the model's effective configuration ecfg *)
 | CMemo            (* memo / lazily computed constant of a pure function of the object's construction inputs; key completeness:
                       C10_all_caches_keyed_by_identity_or_value, C16_cache_transparent for the loader memo *)
+| CPerFileLocal    (* in-place change of an object the caller created for this one file / call and does not keep *)
 | CReviewedSetup.  (* in the render phase only through a name collision of the over-approximate call graph (LanguageConfig.set /
                       update_section vs. dict.update / set): written while the LanguageContext is built, reviewed by hand *)
 
@@ -141,7 +142,29 @@ Definition store_classes : list (str * str * str * sclass) :=
    ([108; 97; 110; 103; 47; 95; 99; 111; 110; 102; 105; 103; 46; 112; 121], [76; 97; 110; 103; 117; 97; 103; 101; 67; 111; 110; 102; 105; 103; 46; 117; 112; 100; 97; 116; 101; 95; 115; 101; 99; 116; 105; 111; 110], [115; 101; 108; 102; 46; 95; 115; 101; 99; 116; 105; 111; 110; 115; 91; 93], CReviewedSetup) (* lang/_config.py LanguageConfig.update_section : self._sections[] *);
    ([108; 97; 110; 103; 47; 95; 99; 111; 110; 102; 105; 103; 46; 112; 121], [76; 97; 110; 103; 117; 97; 103; 101; 67; 111; 110; 102; 105; 103; 46; 115; 101; 116], [115; 101; 108; 102; 46; 95; 115; 101; 99; 116; 105; 111; 110; 115; 91; 93; 91; 93], CReviewedSetup) (* lang/_config.py LanguageConfig.set : self._sections[][] *);
    ([108; 97; 110; 103; 47; 95; 99; 111; 110; 102; 105; 103; 46; 112; 121], [86; 101; 114; 115; 105; 111; 110; 82; 101; 97; 100; 101; 114; 46; 118; 101; 114; 115; 105; 111; 110], [115; 101; 108; 102; 46; 95; 99; 97; 99; 104; 101; 100], CMemo) (* lang/_config.py VersionReader.version : self._cached *)
-
+;
+   (* ---- in-place mutations of caller-owned objects (parameters, aliases of parameters, self attributes bound to them) ---- *)
+   ([95; 100; 101; 112; 101; 110; 100; 101; 110; 99; 105; 101; 115; 46; 112; 121], [68; 101; 112; 101; 110; 100; 101; 110; 99; 121; 66; 117; 105; 108; 100; 101; 114; 46; 95; 101; 120; 116; 114; 97; 99; 116; 95; 100; 101; 112; 101; 110; 100; 101; 110; 116; 95; 116; 121; 112; 101; 115; 95; 104; 97; 110; 100; 108; 101; 95; 97; 114; 114; 97; 121; 95; 116; 121; 112; 101], [60; 112; 97; 114; 97; 109; 32; 105; 110; 111; 117; 116; 95; 100; 101; 112; 101; 110; 100; 101; 110; 99; 105; 101; 115; 62; 32; 118; 105; 97; 32; 105; 110; 111; 117; 116; 95; 100; 101; 112; 101; 110; 100; 101; 110; 99; 105; 101; 115; 46; 117; 115; 101; 115; 95; 118; 97; 114; 105; 97; 98; 108; 101; 95; 108; 101; 110; 103; 116; 104; 95; 97; 114; 114; 97; 121], CPerFileLocal) (* _dependencies.py DependencyBuilder._extract_dependent_types_handle_array_type : <param inout_dependencies> via inout_dependencies.uses_variable_length_array -- a Dependencies object created by the caller for this one call chain *);
+   ([95; 100; 101; 112; 101; 110; 100; 101; 110; 99; 105; 101; 115; 46; 112; 121], [68; 101; 112; 101; 110; 100; 101; 110; 99; 121; 66; 117; 105; 108; 100; 101; 114; 46; 95; 101; 120; 116; 114; 97; 99; 116; 95; 100; 101; 112; 101; 110; 100; 101; 110; 116; 95; 116; 121; 112; 101; 115; 95; 104; 97; 110; 100; 108; 101; 95; 97; 114; 114; 97; 121; 95; 116; 121; 112; 101], [60; 112; 97; 114; 97; 109; 32; 105; 110; 111; 117; 116; 95; 100; 101; 112; 101; 110; 100; 101; 110; 99; 105; 101; 115; 62; 32; 118; 105; 97; 32; 105; 110; 111; 117; 116; 95; 100; 101; 112; 101; 110; 100; 101; 110; 99; 105; 101; 115; 46; 117; 115; 101; 115; 95; 98; 111; 111; 108; 101; 97; 110; 95; 115; 116; 97; 116; 105; 99; 95; 97; 114; 114; 97; 121], CPerFileLocal) (* _dependencies.py DependencyBuilder._extract_dependent_types_handle_array_type : <param inout_dependencies> via inout_dependencies.uses_boolean_static_array -- a Dependencies object created by the caller for this one call chain *);
+   ([95; 100; 101; 112; 101; 110; 100; 101; 110; 99; 105; 101; 115; 46; 112; 121], [68; 101; 112; 101; 110; 100; 101; 110; 99; 121; 66; 117; 105; 108; 100; 101; 114; 46; 95; 101; 120; 116; 114; 97; 99; 116; 95; 100; 101; 112; 101; 110; 100; 101; 110; 116; 95; 116; 121; 112; 101; 115; 95; 104; 97; 110; 100; 108; 101; 95; 97; 114; 114; 97; 121; 95; 116; 121; 112; 101], [60; 112; 97; 114; 97; 109; 32; 105; 110; 111; 117; 116; 95; 100; 101; 112; 101; 110; 100; 101; 110; 99; 105; 101; 115; 62; 32; 118; 105; 97; 32; 105; 110; 111; 117; 116; 95; 100; 101; 112; 101; 110; 100; 101; 110; 99; 105; 101; 115; 46; 117; 115; 101; 115; 95; 112; 114; 105; 109; 105; 116; 105; 118; 101; 95; 115; 116; 97; 116; 105; 99; 95; 97; 114; 114; 97; 121], CPerFileLocal) (* _dependencies.py DependencyBuilder._extract_dependent_types_handle_array_type : <param inout_dependencies> via inout_dependencies.uses_primitive_static_array -- a Dependencies object created by the caller for this one call chain *);
+   ([95; 100; 101; 112; 101; 110; 100; 101; 110; 99; 105; 101; 115; 46; 112; 121], [68; 101; 112; 101; 110; 100; 101; 110; 99; 121; 66; 117; 105; 108; 100; 101; 114; 46; 95; 101; 120; 116; 114; 97; 99; 116; 95; 100; 101; 112; 101; 110; 100; 101; 110; 116; 95; 116; 121; 112; 101; 115; 95; 104; 97; 110; 100; 108; 101; 95; 97; 114; 114; 97; 121; 95; 116; 121; 112; 101], [60; 112; 97; 114; 97; 109; 32; 105; 110; 111; 117; 116; 95; 100; 101; 112; 101; 110; 100; 101; 110; 99; 105; 101; 115; 62; 32; 118; 105; 97; 32; 105; 110; 111; 117; 116; 95; 100; 101; 112; 101; 110; 100; 101; 110; 99; 105; 101; 115; 46; 117; 115; 101; 115; 95; 97; 114; 114; 97; 121], CPerFileLocal) (* _dependencies.py DependencyBuilder._extract_dependent_types_handle_array_type : <param inout_dependencies> via inout_dependencies.uses_array -- a Dependencies object created by the caller for this one call chain *);
+   ([95; 100; 101; 112; 101; 110; 100; 101; 110; 99; 105; 101; 115; 46; 112; 121], [68; 101; 112; 101; 110; 100; 101; 110; 99; 121; 66; 117; 105; 108; 100; 101; 114; 46; 95; 101; 120; 116; 114; 97; 99; 116; 95; 100; 101; 112; 101; 110; 100; 101; 110; 116; 95; 116; 121; 112; 101; 115], [60; 112; 97; 114; 97; 109; 32; 105; 110; 111; 117; 116; 95; 100; 101; 112; 101; 110; 100; 101; 110; 99; 105; 101; 115; 62; 32; 118; 105; 97; 32; 105; 110; 111; 117; 116; 95; 100; 101; 112; 101; 110; 100; 101; 110; 99; 105; 101; 115; 46; 117; 115; 101; 115; 95; 105; 110; 116; 101; 103; 101; 114], CPerFileLocal) (* _dependencies.py DependencyBuilder._extract_dependent_types : <param inout_dependencies> via inout_dependencies.uses_integer -- a Dependencies object created by the caller for this one call chain *);
+   ([95; 100; 101; 112; 101; 110; 100; 101; 110; 99; 105; 101; 115; 46; 112; 121], [68; 101; 112; 101; 110; 100; 101; 110; 99; 121; 66; 117; 105; 108; 100; 101; 114; 46; 95; 101; 120; 116; 114; 97; 99; 116; 95; 100; 101; 112; 101; 110; 100; 101; 110; 116; 95; 116; 121; 112; 101; 115], [60; 112; 97; 114; 97; 109; 32; 105; 110; 111; 117; 116; 95; 100; 101; 112; 101; 110; 100; 101; 110; 99; 105; 101; 115; 62; 32; 118; 105; 97; 32; 105; 110; 111; 117; 116; 95; 100; 101; 112; 101; 110; 100; 101; 110; 99; 105; 101; 115; 46; 117; 115; 101; 115; 95; 102; 108; 111; 97; 116], CPerFileLocal) (* _dependencies.py DependencyBuilder._extract_dependent_types : <param inout_dependencies> via inout_dependencies.uses_float -- a Dependencies object created by the caller for this one call chain *);
+   ([95; 100; 101; 112; 101; 110; 100; 101; 110; 99; 105; 101; 115; 46; 112; 121], [68; 101; 112; 101; 110; 100; 101; 110; 99; 121; 66; 117; 105; 108; 100; 101; 114; 46; 95; 101; 120; 116; 114; 97; 99; 116; 95; 100; 101; 112; 101; 110; 100; 101; 110; 116; 95; 116; 121; 112; 101; 115], [60; 112; 97; 114; 97; 109; 32; 105; 110; 111; 117; 116; 95; 100; 101; 112; 101; 110; 100; 101; 110; 99; 105; 101; 115; 62; 32; 118; 105; 97; 32; 105; 110; 111; 117; 116; 95; 100; 101; 112; 101; 110; 100; 101; 110; 99; 105; 101; 115; 46; 117; 115; 101; 115; 95; 98; 111; 111; 108], CPerFileLocal) (* _dependencies.py DependencyBuilder._extract_dependent_types : <param inout_dependencies> via inout_dependencies.uses_bool -- a Dependencies object created by the caller for this one call chain *);
+   ([95; 110; 97; 109; 101; 115; 112; 97; 99; 101; 46; 112; 121], [78; 97; 109; 101; 115; 112; 97; 99; 101; 46; 95; 97; 100; 100; 95; 110; 101; 115; 116; 101; 100; 95; 110; 97; 109; 101; 115; 112; 97; 99; 101], [60; 112; 97; 114; 97; 109; 32; 110; 101; 115; 116; 101; 100; 62; 32; 118; 105; 97; 32; 110; 101; 115; 116; 101; 100; 46; 95; 112; 97; 114; 101; 110; 116], CReviewedSetup) (* _namespace.py Namespace._add_nested_namespace : <param nested> via nested._parent -- runs while the namespace tree / language context / environment / generator is constructed; the caller hands over an object it built for that purpose *);
+   ([95; 117; 116; 105; 108; 105; 116; 105; 101; 115; 46; 112; 121], [68; 101; 102; 97; 117; 108; 116; 86; 97; 108; 117; 101; 46; 97; 115; 115; 105; 103; 110; 95; 116; 111; 95; 105; 102; 95; 110; 111; 116; 95; 100; 101; 102; 97; 117; 108; 116], [60; 112; 97; 114; 97; 109; 32; 116; 97; 114; 103; 101; 116; 62; 32; 118; 105; 97; 32; 116; 97; 114; 103; 101; 116; 91; 93], CReviewedSetup) (* _utilities.py DefaultValue.assign_to_if_not_default : <param target> via target[] -- runs while the namespace tree / language context / environment / generator is constructed; the caller hands over an object it built for that purpose *);
+   ([95; 117; 116; 105; 108; 105; 116; 105; 101; 115; 46; 112; 121], [100; 101; 101; 112; 95; 117; 112; 100; 97; 116; 101], [60; 112; 97; 114; 97; 109; 32; 116; 97; 114; 103; 101; 116; 62; 32; 118; 105; 97; 32; 116; 97; 114; 103; 101; 116; 91; 93], CReviewedSetup) (* _utilities.py deep_update : <param target> via target[] -- runs while the namespace tree / language context / environment / generator is constructed; the caller hands over an object it built for that purpose *);
+   ([106; 105; 110; 106; 97; 47; 95; 95; 105; 110; 105; 116; 95; 95; 46; 112; 121], [67; 111; 100; 101; 71; 101; 110; 101; 114; 97; 116; 111; 114; 46; 95; 95; 97; 117; 103; 109; 101; 110; 116; 95; 112; 111; 115; 116; 95; 112; 114; 111; 99; 101; 115; 115; 111; 114; 115; 95; 119; 105; 116; 104; 95; 108; 110; 95; 108; 105; 109; 105; 116; 95; 101; 109; 112; 116; 121; 95; 108; 105; 110; 101; 115], [60; 112; 97; 114; 97; 109; 32; 112; 111; 115; 116; 95; 112; 114; 111; 99; 101; 115; 115; 111; 114; 115; 62; 32; 118; 105; 97; 32; 112; 111; 115; 116; 95; 112; 114; 111; 99; 101; 115; 115; 111; 114; 115; 46; 97; 112; 112; 101; 110; 100; 40; 41], CReviewedSetup) (* jinja/__init__.py CodeGenerator.__augment_post_processors_with_ln_limit_empty_lines : <param post_processors> via post_processors.append() -- runs while the namespace tree / language context / environment / generator is constructed; the caller hands over an object it built for that purpose *);
+   ([106; 105; 110; 106; 97; 47; 95; 95; 105; 110; 105; 116; 95; 95; 46; 112; 121], [67; 111; 100; 101; 71; 101; 110; 101; 114; 97; 116; 111; 114; 46; 95; 95; 97; 117; 103; 109; 101; 110; 116; 95; 112; 111; 115; 116; 95; 112; 114; 111; 99; 101; 115; 115; 111; 114; 115; 95; 119; 105; 116; 104; 95; 108; 110; 95; 116; 114; 105; 109; 95; 116; 114; 97; 105; 108; 105; 110; 103; 95; 119; 104; 105; 116; 101; 115; 112; 97; 99; 101], [60; 112; 97; 114; 97; 109; 32; 112; 111; 115; 116; 95; 112; 114; 111; 99; 101; 115; 115; 111; 114; 115; 62; 32; 118; 105; 97; 32; 112; 111; 115; 116; 95; 112; 114; 111; 99; 101; 115; 115; 111; 114; 115; 46; 105; 110; 115; 101; 114; 116; 40; 41], CReviewedSetup) (* jinja/__init__.py CodeGenerator.__augment_post_processors_with_ln_trim_trailing_whitespace : <param post_processors> via post_processors.insert() -- runs while the namespace tree / language context / environment / generator is constructed; the caller hands over an object it built for that purpose *);
+   ([106; 105; 110; 106; 97; 47; 95; 95; 105; 110; 105; 116; 95; 95; 46; 112; 121], [67; 111; 100; 101; 71; 101; 110; 101; 114; 97; 116; 111; 114; 46; 95; 102; 105; 108; 116; 101; 114; 95; 97; 110; 100; 95; 119; 114; 105; 116; 101; 95; 108; 105; 110; 101], [60; 112; 97; 114; 97; 109; 32; 111; 117; 116; 112; 117; 116; 95; 102; 105; 108; 101; 62; 32; 118; 105; 97; 32; 111; 117; 116; 112; 117; 116; 95; 102; 105; 108; 101; 46; 119; 114; 105; 116; 101; 40; 41], CPerFileLocal) (* jinja/__init__.py CodeGenerator._filter_and_write_line : <param output_file> via output_file.write() -- the file being written *);
+   ([106; 105; 110; 106; 97; 47; 95; 95; 105; 110; 105; 116; 95; 95; 46; 112; 121], [83; 117; 112; 112; 111; 114; 116; 71; 101; 110; 101; 114; 97; 116; 111; 114; 46; 95; 95; 105; 110; 105; 116; 95; 95], [60; 112; 97; 114; 97; 109; 32; 107; 119; 97; 114; 103; 115; 62; 32; 118; 105; 97; 32; 107; 119; 97; 114; 103; 115; 46; 117; 112; 100; 97; 116; 101; 40; 41], CPerFileLocal) (* jinja/__init__.py SupportGenerator.__init__ : <param kwargs> via kwargs.update() -- the ** dictionary packed for this call *);
+   ([106; 105; 110; 106; 97; 47; 101; 110; 118; 105; 114; 111; 110; 109; 101; 110; 116; 46; 112; 121], [67; 111; 100; 101; 71; 101; 110; 69; 110; 118; 105; 114; 111; 110; 109; 101; 110; 116; 66; 117; 105; 108; 100; 101; 114; 46; 97; 100; 100; 95; 102; 105; 108; 116; 101; 114; 115], [60; 112; 97; 114; 97; 109; 32; 97; 100; 100; 105; 116; 105; 111; 110; 97; 108; 95; 102; 105; 108; 116; 101; 114; 115; 62; 32; 118; 105; 97; 32; 115; 101; 108; 102; 46; 95; 97; 100; 100; 105; 116; 105; 111; 110; 97; 108; 95; 102; 105; 108; 116; 101; 114; 115; 46; 117; 112; 100; 97; 116; 101; 40; 41], CReviewedSetup) (* jinja/environment.py CodeGenEnvironmentBuilder.add_filters : <param additional_filters> via self._additional_filters.update() -- runs while the namespace tree / language context / environment / generator is constructed; the caller hands over an object it built for that purpose *);
+   ([106; 105; 110; 106; 97; 47; 101; 110; 118; 105; 114; 111; 110; 109; 101; 110; 116; 46; 112; 121], [67; 111; 100; 101; 71; 101; 110; 69; 110; 118; 105; 114; 111; 110; 109; 101; 110; 116; 66; 117; 105; 108; 100; 101; 114; 46; 97; 100; 100; 95; 116; 101; 115; 116; 115], [60; 112; 97; 114; 97; 109; 32; 97; 100; 100; 105; 116; 105; 111; 110; 97; 108; 95; 116; 101; 115; 116; 115; 62; 32; 118; 105; 97; 32; 115; 101; 108; 102; 46; 95; 97; 100; 100; 105; 116; 105; 111; 110; 97; 108; 95; 116; 101; 115; 116; 115; 46; 117; 112; 100; 97; 116; 101; 40; 41], CReviewedSetup) (* jinja/environment.py CodeGenEnvironmentBuilder.add_tests : <param additional_tests> via self._additional_tests.update() -- runs while the namespace tree / language context / environment / generator is constructed; the caller hands over an object it built for that purpose *);
+   ([106; 105; 110; 106; 97; 47; 101; 110; 118; 105; 114; 111; 110; 109; 101; 110; 116; 46; 112; 121], [67; 111; 100; 101; 71; 101; 110; 69; 110; 118; 105; 114; 111; 110; 109; 101; 110; 116; 66; 117; 105; 108; 100; 101; 114; 46; 97; 100; 100; 95; 103; 108; 111; 98; 97; 108; 115], [60; 112; 97; 114; 97; 109; 32; 97; 100; 100; 105; 116; 105; 111; 110; 97; 108; 95; 103; 108; 111; 98; 97; 108; 115; 62; 32; 118; 105; 97; 32; 115; 101; 108; 102; 46; 95; 97; 100; 100; 105; 116; 105; 111; 110; 97; 108; 95; 103; 108; 111; 98; 97; 108; 115; 46; 117; 112; 100; 97; 116; 101; 40; 41], CReviewedSetup) (* jinja/environment.py CodeGenEnvironmentBuilder.add_globals : <param additional_globals> via self._additional_globals.update() -- runs while the namespace tree / language context / environment / generator is constructed; the caller hands over an object it built for that purpose *);
+   ([106; 105; 110; 106; 97; 47; 101; 110; 118; 105; 114; 111; 110; 109; 101; 110; 116; 46; 112; 121], [67; 111; 100; 101; 71; 101; 110; 69; 110; 118; 105; 114; 111; 110; 109; 101; 110; 116; 46; 95; 97; 100; 100; 95; 116; 111; 95; 101; 110; 118; 105; 114; 111; 110; 109; 101; 110; 116], [60; 112; 97; 114; 97; 109; 32; 99; 111; 108; 108; 101; 99; 116; 105; 111; 110; 62; 32; 118; 105; 97; 32; 99; 111; 108; 108; 101; 99; 116; 105; 111; 110; 91; 93], CReviewedSetup) (* jinja/environment.py CodeGenEnvironment._add_to_environment : <param collection> via collection[] -- runs while the namespace tree / language context / environment / generator is constructed; the caller hands over an object it built for that purpose *);
+   ([108; 97; 110; 103; 47; 99; 112; 112; 47; 95; 95; 105; 110; 105; 116; 95; 95; 46; 112; 121], [76; 97; 110; 103; 117; 97; 103; 101; 46; 95; 118; 97; 108; 105; 100; 97; 116; 101; 95; 108; 97; 110; 103; 117; 97; 103; 101; 95; 111; 112; 116; 105; 111; 110; 115], [60; 112; 97; 114; 97; 109; 32; 111; 112; 116; 105; 111; 110; 115; 62; 32; 118; 105; 97; 32; 111; 112; 116; 105; 111; 110; 115; 46; 117; 112; 100; 97; 116; 101; 40; 41], CReviewedSetup) (* lang/cpp/__init__.py Language._validate_language_options : <param options> via options.update() -- runs while the namespace tree / language context / environment / generator is constructed; the caller hands over an object it built for that purpose *);
+   ([108; 97; 110; 103; 47; 99; 112; 112; 47; 95; 95; 105; 110; 105; 116; 95; 95; 46; 112; 121], [76; 97; 110; 103; 117; 97; 103; 101; 46; 95; 118; 97; 108; 105; 100; 97; 116; 101; 95; 103; 108; 111; 98; 97; 108; 115], [60; 112; 97; 114; 97; 109; 32; 103; 108; 111; 98; 97; 108; 115; 95; 109; 97; 112; 62; 32; 118; 105; 97; 32; 103; 108; 111; 98; 97; 108; 115; 95; 109; 97; 112; 91; 93], CReviewedSetup) (* lang/cpp/__init__.py Language._validate_globals : <param globals_map> via globals_map[] -- runs while the namespace tree / language context / environment / generator is constructed; the caller hands over an object it built for that purpose *);
+   ([108; 97; 110; 103; 47; 112; 121; 47; 95; 95; 105; 110; 105; 116; 95; 95; 46; 112; 121], [76; 97; 110; 103; 117; 97; 103; 101; 46; 95; 118; 97; 108; 105; 100; 97; 116; 101; 95; 108; 97; 110; 103; 117; 97; 103; 101; 95; 111; 112; 116; 105; 111; 110; 115], [60; 112; 97; 114; 97; 109; 32; 111; 112; 116; 105; 111; 110; 115; 62; 32; 118; 105; 97; 32; 111; 112; 116; 105; 111; 110; 115; 91; 93], CReviewedSetup) (* lang/py/__init__.py Language._validate_language_options : <param options> via options[] -- runs while the namespace tree / language context / environment / generator is constructed; the caller hands over an object it built for that purpose *)
   ].
 
 Definition class_of (s : store) : option sclass :=
@@ -165,3 +188,58 @@ Definition store_ok (resets : bool) (s : store) : bool :=
 
 (* what survives from one file to the next through stores that are not admissible: nothing iff all are admissible *)
 Definition stores_leak (resets : bool) (stores : list store) : bool := negb (forallb (store_ok resets) stores).
+
+(* ================= module-level and class-level objects; arguments of the template engine's constructor ================= *)
+(* Gen_Sites.g_modobjs: every name bound at module or class scope of src/nunavut to a dict/list/set literal or comprehension, to
+   the result of a container constructor, or to the result of ANY other call that is not an evidently immutable constructor
+   (so: an instance of any class, a cache object, a store of compiled templates ...), with what ANY function -- __init__ included --
+   does with it: mo_mutated (stored into / mutator called), mo_escapes (passed to a callee outside the read-only allow-list,
+   returned, stored into an attribute, aliased).  An object that escapes may be mutated by the callee on nunavut's behalf (the
+   bundled jinja2 is not scanned): it must be reviewed. *)
+Inductive mokind := VLiteral | VContainerCall | VInstance.
+Record modobj := { mo_file : str; mo_name : str; mo_kind : mokind; mo_made_by : str; mo_mutated : bool; mo_escapes : list str }.
+
+(* reviewed objects: (file, name, constructor, the one escape).  Any change of constructor or escape needs a new review. *)
+Definition modobj_reviewed : list (str * str * str * str) :=
+  [
+   ([108; 97; 110; 103; 47; 99; 112; 112; 47; 95; 95; 105; 110; 105; 116; 95; 95; 46; 112; 121], [102; 105; 108; 116; 101; 114; 95; 116; 111; 95; 116; 101; 109; 112; 108; 97; 116; 101; 95; 117; 110; 105; 113; 117; 101; 95; 110; 97; 109; 101], [116; 101; 109; 112; 108; 97; 116; 101; 95; 118; 111; 108; 97; 116; 105; 108; 101; 95; 102; 105; 108; 116; 101; 114], [97; 114; 103; 32; 111; 102; 32; 116; 101; 109; 112; 108; 97; 116; 101; 95; 118; 111; 108; 97; 116; 105; 108; 101; 95; 102; 105; 108; 116; 101; 114])
+   (* lang/cpp/__init__.py filter_to_template_unique_name made by template_volatile_filter; escapes: arg of template_volatile_filter -- the filter function itself, re-bound after template_volatile_filter set an attribute on it at import time (fix 2c24c86) *);
+   ([108; 97; 110; 103; 47; 112; 121; 47; 95; 95; 105; 110; 105; 116; 95; 95; 46; 112; 121], [76; 97; 110; 103; 117; 97; 103; 101; 46; 80; 89; 84; 72; 79; 78; 95; 82; 69; 83; 69; 82; 86; 69; 68; 95; 73; 68; 69; 78; 84; 73; 70; 73; 69; 82; 83], [115; 111; 114; 116; 101; 100], [97; 100; 100; 105; 116; 105; 111; 110; 97; 108; 95; 114; 101; 115; 101; 114; 118; 101; 100; 95; 105; 100; 101; 110; 116; 105; 102; 105; 101; 114; 115; 61; 32; 111; 102; 32; 84; 111; 107; 101; 110; 69; 110; 99; 111; 100; 101; 114])
+   (* lang/py/__init__.py Language.PYTHON_RESERVED_IDENTIFIERS made by sorted; escapes: additional_reserved_identifiers= of TokenEncoder -- list of keywords/builtins; TokenEncoder.__init__ concatenates it into a new list and keeps no reference *)
+  ].
+
+Definition is_reviewed (o : modobj) : bool :=
+  existsb (fun e => str_eqb (fst (fst (fst e))) (mo_file o) && str_eqb (snd (fst (fst e))) (mo_name o)
+                    && str_eqb (snd (fst e)) (mo_made_by o)
+                    && match mo_escapes o with [x] => str_eqb (snd e) x | _ => false end) modobj_reviewed.
+
+(* a constant table: a literal or container never written and never handed to anyone who could keep it; everything else --
+   in particular any instance of a class living at module level -- has to be reviewed *)
+Definition modobj_ok (o : modobj) : bool :=
+  negb (mo_mutated o) &&
+  (match mo_kind o, mo_escapes o with
+   | VLiteral, [] | VContainerCall, [] => true
+   | _, _ => is_reviewed o
+   end).
+
+(* Gen_Sites.g_env_kwargs: every keyword argument src/nunavut hands to the bundled jinja2 Environment constructor, with where the
+   value comes from.  Admissible: a keyword of the allow-list (none of which lets two environments share state: no
+   bytecode_cache, no shared cache object) whose value is a parameter of the constructor, a literal, an imported class/function
+   or a freshly constructed object -- never a module-level object. *)
+Inductive ekind := EConst | EParam | EImported | EFresh | EGlobal | EOther.
+Record envkw := { ek_file : str; ek_where : str; ek_kw : str; ek_vkind : ekind }.
+
+Definition env_kwargs_allowed : list str :=
+  [ [108; 111; 97; 100; 101; 114] (* loader *);
+    [101; 120; 116; 101; 110; 115; 105; 111; 110; 115] (* extensions *);
+    [97; 117; 116; 111; 101; 115; 99; 97; 112; 101] (* autoescape *);
+    [117; 110; 100; 101; 102; 105; 110; 101; 100] (* undefined *);
+    [107; 101; 101; 112; 95; 116; 114; 97; 105; 108; 105; 110; 103; 95; 110; 101; 119; 108; 105; 110; 101] (* keep_trailing_newline *);
+    [108; 115; 116; 114; 105; 112; 95; 98; 108; 111; 99; 107; 115] (* lstrip_blocks *);
+    [116; 114; 105; 109; 95; 98; 108; 111; 99; 107; 115] (* trim_blocks *);
+    [97; 117; 116; 111; 95; 114; 101; 108; 111; 97; 100] (* auto_reload *);
+    [99; 97; 99; 104; 101; 95; 115; 105; 122; 101] (* cache_size *) ].
+
+Definition envkw_ok (k : envkw) : bool :=
+  str_in (ek_kw k) env_kwargs_allowed &&
+  match ek_vkind k with EConst | EParam | EImported | EFresh => true | EGlobal | EOther => false end.
